@@ -72,7 +72,7 @@ func TestVerifC02(t *testing.T) {
 	var cfgs []c02Cfg
 	for _, root := range roots {
 		for _, ap := range vAssetPaths(root) {
-			if !vExtraWanted(root, ap, "x_thumbs_1s_before_text", "x_two_video_grids") {
+			if !vExtraWanted(root, ap, "x_thumbs_1s_before_text", "x_two_video_grids", "x_two_audio") {
 				continue
 			}
 			a, err := vAsset(root, ap)
